@@ -6,6 +6,7 @@ CONSTANTS
   LeaseIds = {1}
   MaxNow = 0
   MaxHist = 1
+  PathView = FALSE
   FullHist = FALSE
 INIT Init
 NEXT NextCore
